@@ -31,7 +31,7 @@ Explains(r) ==
     /\ Matches(Observe(r.wire, r.fin), r.out.final, r.fin)
 
 Init == l = 1
-Next == l <= Len(Rec) /\ l' = l + 1 /\ (Explains(Rec[l]) \/ PrintT(<<"REJECT", l>>))
+Next == l <= Len(Rec) /\ l' = l + 1 /\ (IF Explains(Rec[l]) THEN TRUE ELSE PrintT(<<"REJECT", l>>))
 Spec == Init /\ [][Next]_l
 TraceAccepted == TLCGet("stats").diameter - 1 = Len(Rec)
 =============================================================================
